@@ -47,6 +47,91 @@ def ts(y, m=1, d=1, h=0, mi=0, s=0):
 
 
 # ------------------------------------------------------------------------------------------------
+# default-configuration leg: what a fmt layer built WITHOUT naming a timer prints (clock not controlled)
+
+import re as _re_default
+TS_RE = _re_default.compile(r"\d{4}-\d\d-\d\dT\d\d:\d\d:\d\d\.\d{6}Z")
+
+
+def default_leg(ctx, rep, model_exe, profiles):
+    """harness/time_default: 24 configurations (collector builder, layers on a registry, stand-alone event formatters; full /
+    compact / pretty / JSON; span-lifecycle records) that never name a timer.  Per record: clock read t0, the record, clock
+    read t1.  Oracle: the record carries an RFC 3339 microsecond UTC timestamp s with text(t0) <= s <= text(t1) in byte order
+    (C20_window_sandwich: met by the text of every instant of the window; C20_window_tight: nothing but the text of an
+    instant of the window, to the microsecond, meets it).  text(t0), text(t1) come from the real code through hook H2 and are
+    tied to the model here.  The clock cannot be replayed: a (configuration, kind) is reported only when it fails in two
+    separate runs (a clock stepped backwards between two reads is the one legitimate cause of a miss)."""
+    n = 3 if not ctx.thorough() else 25
+    for prof in profiles:
+        ok, paths, log = cargo_build(ctx, "time_default", ["h_time_default"], release=(prof == "release"))
+        if not ok:
+            rep.tie("build:h_time_default-" + prof, False, vlib.last_error(log))
+            continue
+        fails_by_run = []
+        n_samples = 0
+        tie_bad = None
+        for attempt in range(2):
+            rc, out = run_bin(paths["h_time_default"], [str(n)], timeout=600)
+            rows = []
+            for l in out.splitlines():
+                if l.startswith("{"):
+                    try:
+                        rows.append(json.loads(l))
+                    except ValueError:
+                        rc = rc or 99
+            if rc != 0 or not rows:
+                rep.tie("run:h_time_default-" + prof, False, "rc=%s %s" % (rc, vlib.last_error(out)))
+                break
+            fails = {}
+            insts = []
+            for r in rows:
+                key = (r["cfg"], r["kind"])
+                t0, t1 = tuple(r["t0"]), tuple(r["t1"])
+                insts += [(t0, r["f0"]), (t1, r["f1"])]
+                if t1 < t0:
+                    rep.count("default-config:clock-stepped-back(sample skipped)")
+                    continue
+                n_samples += 1
+                if attempt == 0:
+                    rep.count("default-config:%s" % r["kind"])
+                found = TS_RE.findall(r["out"])
+                if not found:
+                    fails.setdefault(key, ("no-timestamp", r, "the record carries no RFC 3339 microsecond UTC timestamp"))
+                elif not (r["f0"] <= found[0] <= r["f1"]):
+                    fails.setdefault(key, ("wrong-instant", r, "printed %s, the clock read %s before and %s after the record" % (found[0], r["f0"], r["f1"])))
+                elif len(r["f0"]) != 27 or len(r["f1"]) != 27:
+                    fails.setdefault(key, ("wrong-instant", r, "window texts are not 27 bytes"))
+            fails_by_run.append(fails)
+            # tie: the hook's text of t0/t1 = the model's text
+            if model_exe and tie_bad is None:
+                work = os.path.join(ctx.work, "default-" + prof)
+                os.makedirs(work, exist_ok=True)
+                mo = os.path.join(work, "model.%d" % attempt)
+                rcm, outm = vlib.sh([model_exe, prof, mo], 600, input="".join("P %d %d\n" % x for x, _ in insts))
+                ml = open(mo, errors="replace").read().split("\n")[:-1] if rcm == 0 else []
+                for (x, f), m in itertools.zip_longest(insts, ml, fillvalue=None):
+                    if m != f:
+                        tie_bad = {"case": {"sec": x[0], "nsec": x[1], "profile": prof, "descriptors": ["P %d %d" % x]}, "impl": f, "model": m}
+                        break
+                rep.evaluations += len(insts)
+                rep.traces_validated += len(insts) if tie_bad is None else 0
+            if not fails:
+                break
+        else:
+            # both runs had failures: report what failed in both
+            both = set(fails_by_run[0]) & set(fails_by_run[1])
+            for key in sorted(both)[:6]:
+                kind, r, detail = fails_by_run[1][key]
+                rep.violation("default-config %s: `%s` (%s record, no timer named) — %s [%s build]" % (kind, key[0], key[1], detail, prof),
+                              {"kind": "default-config", "what": kind, "cfg": key[0], "record": key[1], "t0": r["t0"], "t1": r["t1"],
+                               "text_t0": r["f0"], "text_t1": r["f1"], "written": r["out"], "profile": prof,
+                               "note": "the clock is not controlled in this leg: re-running the check re-runs the configuration"})
+        rep.tie("correspondence:default-config-window-texts:" + prof, tie_bad is None,
+                "hook text of every window end = the model's (%d samples)" % n_samples, tie_bad)
+        rep.count("default-config samples:" + prof, n_samples)
+
+
+# ------------------------------------------------------------------------------------------------
 # case generation
 
 def boundaries(ctx):
@@ -579,6 +664,7 @@ def run(ctx):
         "harness h_time.rs / h_time_state.rs (build SystemTime = UNIX_EPOCH +/- Duration, call the hook __verif_format_system_time; the latter on a fresh thread per scenario)",
         "std: SystemTime::duration_since / Duration accessors (modelled by std_duration_since_epoch), fmt padding of integers",
         "Python oracle: CPython datetime.date.fromordinal + 400-year periodicity; Rust oracle: Hinnant civil_from_days",
+        "harness h_time_default.rs (24 fmt configurations that name no timer; SystemTime::now() read before and after each record; the clock itself is not controlled)",
     ]
     rep.assumptions = [
         "SystemTime is std's unix Timespec {tv_sec: i64, tv_nsec < 1e9}; duration_since(UNIX_EPOCH) as modelled (Ok(secs,nanos) / Err(distance back))",
@@ -704,6 +790,11 @@ def run(ctx):
                     "%d of %d instants differ" % (nd, n), diffs[0] if diffs else None)
         all_fail_keys[prof] = py_keys
 
+    # ---- default-configuration leg (no timer named; clock not controlled)
+    rp_kind = (json.load(open(ctx.replay)).get("case") or {}).get("kind") if ctx.replay else None
+    if not ctx.replay or rp_kind == "default-config":
+        default_leg(ctx, rep, model_exe, ("debug", "release") if ctx.thorough() or ctx.replay else ("debug",))
+        ctx.log("default-configuration leg done")
     # ---- the Coq kernel's own evaluation of the model on a subset (and of the extraction against it)
     if not ctx.replay:
         sub = coq_subset(ctx, C, B)
